@@ -165,14 +165,15 @@ func (m *Machine) ndStub(name string, args []Value) Value {
 		return node
 	case "Ed25519Key":
 		seed := m.newDrawCells(32, "bytes")
-		m.varSeq++
+		// the public half is an ideal injective function of the seed: two draws with the same seed are the same
+		// key pair (as they are natively), different seeds give different public keys
+		pc := m.idealFn("ed25519pub", seed, 32, true)
 		priv := m.newNode(64)
 		pub := m.newNode(32)
 		for i := 0; i < 32; i++ {
 			priv.elems[i] = seed[i]
-			p := m.tt.Var(8, fmt.Sprintf("pub%d_%d", m.varSeq, i))
-			priv.elems[32+i] = p
-			pub.elems[i] = p
+			priv.elems[32+i] = pc[i]
+			pub.elems[i] = pc[i]
 		}
 		return Tuple{Slice{priv, 0, 64, 64}, Slice{pub, 0, 32, 32}}
 	case "NowUnix":
